@@ -180,7 +180,7 @@ def _run_property(ctx):
     ctx.sample({'law': 'local-only', 'statement': 'merge(b, X, b) == X without conflict'})
 
 
-MERGE_MODEL_THEOREMS = ['Nbdime.C05_model_identity', 'Nbdime.C05_model_onesided_local', 'Nbdime.C05_model_onesided_remote', 'Nbdime.C05_model_agreement', 'Nbdime.C05_model_onesided_apply', 'Nbdime.C05_generic_onesided_adoption', 'Nbdime.C05_notebook_onesided_adoption', 'Nbdime.C05_model_keywise_apply', 'Nbdime.C05_model_onesided_apply_remote', 'Nbdime.C05_model_agreement_apply', 'Nbdime.C05_generic_onesided_adoption_remote', 'Nbdime.C05_notebook_onesided_adoption_remote', 'Nbdime.C05_generic_agreement_adoption', 'Nbdime.C05_notebook_agreement_adoption', 'Nbdime.C05_model_cells_symmetric']
+MERGE_MODEL_THEOREMS = ['Nbdime.C05_model_identity', 'Nbdime.C05_model_onesided_local', 'Nbdime.C05_model_onesided_remote', 'Nbdime.C05_model_agreement', 'Nbdime.C05_model_onesided_apply', 'Nbdime.C05_generic_onesided_adoption', 'Nbdime.C05_notebook_onesided_adoption', 'Nbdime.C05_model_keywise_apply', 'Nbdime.C05_model_onesided_apply_remote', 'Nbdime.C05_model_agreement_apply', 'Nbdime.C05_generic_onesided_adoption_remote', 'Nbdime.C05_notebook_onesided_adoption_remote', 'Nbdime.C05_generic_agreement_adoption', 'Nbdime.C05_notebook_agreement_adoption', 'Nbdime.C05_model_cells_symmetric', 'Nbdime.C05_model_keywise_symmetric']
 THEOREMS.extend(t for t in MERGE_MODEL_THEOREMS if t not in THEOREMS)
 
 
